@@ -300,6 +300,17 @@ func opStats(x *xast.Expr) (nBin int, precs map[int]int, keywordName, tightMinus
 
 // mutate turns a valid token list into a string that is not an XPath
 // expression, by construction.
+// isFunctionNameToken: the token before a '(' is a name (the parentheses are
+// an argument list or a node type test, not a parenthesised expression).
+func isFunctionNameToken(toks []string, i int) bool {
+	s := toks[i]
+	if s == "" {
+		return false
+	}
+	r := []rune(s)[0]
+	return r == '_' || r == '#' || r >= 'a' && r <= 'z' || r >= 'A' && r <= 'Z' || r > 127
+}
+
 func mutate(t *rapid.T, toks []string) (string, string) {
 	join := xast.JoinTokens
 	idxOf := func(pred func(string) bool) []int {
@@ -319,7 +330,7 @@ func mutate(t *rapid.T, toks []string) (string, string) {
 	}
 	lastTok := toks[len(toks)-1]
 	endsWithSlash := lastTok == "/" || lastTok == "//"
-	switch m := rapid.IntRange(0, 12).Draw(t, "mutation"); m {
+	switch m := rapid.IntRange(0, 14).Draw(t, "mutation"); m {
 	case 0:
 		if br := idxOf(func(s string) bool { return s == "(" || s == ")" || s == "[" || s == "]" }); len(br) > 0 {
 			return join(without(br[rapid.IntRange(0, len(br)-1).Draw(t, "which")])), "unbalanced bracket"
@@ -399,6 +410,46 @@ func mutate(t *rapid.T, toks []string) (string, string) {
 			mut := append([]string{}, toks...)
 			mut[i] = toks[i] + []string{"e5", ".2.3", "..", "x"}[rapid.IntRange(0, 3).Draw(t, "numMut")]
 			return join(mut), "malformed number"
+		}
+	case 13:
+		// f(a,) and f(,a): a comma next to a parenthesis of an argument list
+		if cl := idxOf(func(s string) bool { return s == ")" }); len(cl) > 0 {
+			// closers of argument lists: the matching '(' follows a function name
+			var calls [][2]int
+			var stack []int
+			for i, s := range toks {
+				switch s {
+				case "(":
+					stack = append(stack, i)
+				case ")":
+					if len(stack) > 0 {
+						o := stack[len(stack)-1]
+						stack = stack[:len(stack)-1]
+						if o > 0 && i > o+1 && isFunctionNameToken(toks, o-1) {
+							calls = append(calls, [2]int{o, i})
+						}
+					}
+				}
+			}
+			if len(calls) > 0 {
+				c := calls[rapid.IntRange(0, len(calls)-1).Draw(t, "which")]
+				if rapid.Bool().Draw(t, "trailing") {
+					return join(insert(c[1], ",")), "comma before )"
+				}
+				return join(insert(c[0]+1, ",")), "comma after ("
+			}
+		}
+	case 14:
+		// an operator or separator where an operand belongs, anywhere in the string
+		if len(toks) > 1 {
+			i := rapid.IntRange(1, len(toks)-1).Draw(t, "at")
+			switch toks[i-1] {
+			case "(", "[", ",", "=", "!=", "<", "<=", ">", ">=", "+", "|":
+				// (after a symbol that is an operator or opener wherever it
+				// stands; never '=' itself, which would glue onto '<' and '>')
+				op := []string{",", ")", "]", "|", "!=", ">="}[rapid.IntRange(0, 5).Draw(t, "stray")]
+				return join(insert(i, op)), "stray operator"
+			}
 		}
 	case 12:
 		// unterminated literal: drop the closing quote of the last literal
@@ -481,11 +532,18 @@ func TestC08(t *testing.T) {
 			g := &xast.G{T: t, Env: xast.GenEnv{ElemNames: []string{"a", "b", "r", "child", "a-b"}, AttrNames: []string{"id", "k"}, Prefixes: []string{"x", "p"}, NumVars: []string{"n"}, StrVars: []string{"s"}, NodeVars: []string{"v"}, PITargets: []string{"t"}}}
 			toks := xast.Tokens(genC08(g, 2))
 			i := rapid.IntRange(0, len(toks)-1).Draw(t, "at")
-			switch rapid.IntRange(0, 2).Draw(t, "damage") {
+			switch rapid.IntRange(0, 4).Draw(t, "damage") {
 			case 0:
 				toks = append(toks[:i:i], toks[i+1:]...)
 			case 1:
 				toks = append(toks[:i+1:i+1], toks[i:]...)
+			case 2:
+				// a vocabulary token inserted
+				toks = append(toks[:i:i], append([]string{soupVocab[rapid.IntRange(0, len(soupVocab)-1).Draw(t, "ins")]}, toks[i:]...)...)
+			case 3:
+				// a punctuation token inserted
+				punct := []string{",", ")", "(", "[", "]", "/", "//", "|", "::", "@", "$", ".", "..", "*", ":", "-"}
+				toks = append(toks[:i:i], append([]string{punct[rapid.IntRange(0, len(punct)-1).Draw(t, "punct")]}, toks[i:]...)...)
 			default:
 				toks[i] = soupVocab[rapid.IntRange(0, len(soupVocab)-1).Draw(t, "repl")]
 			}
